@@ -6,6 +6,7 @@ import PhotVerif.Driver.Segm
 import PhotVerif.Driver.Deblend
 import PhotVerif.Driver.Lazy
 import PhotVerif.Driver.Catalog
+import PhotVerif.Driver.Peaks
 namespace PhotVerif.Driver
 
 /-- driver state: the objects that live across lines (state-machine models) -/
@@ -13,7 +14,7 @@ structure DState where
   segm : Option PhotVerif.Model.Segm.State := none
 
 def handlers : List (String → List String → Option String) :=
-  [handleGeom, handleMask, handleApSum, handleDetect, handleDeblend, handleLazy, handleCatalog]
+  [handleGeom, handleMask, handleApSum, handleDetect, handleDeblend, handleLazy, handleCatalog, handlePeaks]
 
 def dispatch (st : DState) (line : String) : DState × String :=
   match tokens line with
